@@ -466,6 +466,61 @@ func c12(env *Env, rep *Report) {
 			}
 		}
 	}
+	if env.Shard == 0 || env.NShards == 1 {
+		// user names that also occur in the literal text of the entry around the placeholder: the file the
+		// download hands out is accepted by the tunnel checks
+		entry := "desktop-{{ preferred_username }}.desk.example:3389"
+		for _, mode := range []string{"roundrobin", "unsigned"} {
+			for _, user := range []string{"de", "top", "desktop", "desk", "e", "example", "3389", "-", "desktop-"} {
+				distinct++
+				rep.add("executions", 1)
+				vclock.Reset()
+				hosts := []string{entry}
+				app := NewWebApp(WebCfg{Store: "cookie", HostSelection: mode, Hosts: hosts, VerifyClientIP: true})
+				b := fineLogin(app, user, "10.0.0.1:40000")
+				target := "/connect"
+				if mode == "unsigned" {
+					target += "?host=" + url.QueryEscape(entry)
+				}
+				r := b.Do(app, "GET", target)
+				f := r.Body.String()
+				tgt, tok := rdpValue(f, "full address"), rdpValue(f, "gatewayaccesstoken")
+				want := strings.Replace(entry, "{{ preferred_username }}", user, 1)
+				if r.Code != 200 || tgt != want {
+					rep.violate("C12/target-host-not-chosen-by-policy/user-name-inside-entry-text/"+mode, fmt.Sprintf("user %q, entry %q: status %d, file names %q", user, entry, r.Code, tgt), map[string]any{"noreplay": true})
+					continue
+				}
+				o := c12Tunnel(c12Case{Mode: mode, Hosts: hosts, Addr: addrForm{Name: "peer", Peer: "10.0.0.1:40000"}}, tok, strings.TrimSuffix(tgt, ":3389"), 3389, rep)
+				rep.outcome(fmt.Sprintf("user-name-inside-entry-text %s opened=%v", mode, o == ""))
+				if o != "" {
+					rep.violate("C12/issued-file-refused-by-tunnel-checks/user-name-inside-entry-text/"+mode, fmt.Sprintf("user %q, entry %q: file names %q, presented unmodified from the same address: %s", user, entry, tgt, o), map[string]any{"noreplay": true})
+				}
+			}
+		}
+		// signed selection: the query token's lifetime counts at the moment of the download, not of the login —
+		// logged in while the query token was good, download four minutes after its end: no file
+		for _, late := range []bool{false, true} {
+			distinct++
+			rep.add("executions", 1)
+			vclock.Reset()
+			app := NewWebApp(WebCfg{Store: "cookie", HostSelection: "signed", Hosts: []string{"hosta.example:3389"}, QueryIssuer: "issuer-1", VerifyClientIP: true})
+			b := fineLogin(app, "alice", "10.0.0.1:40000")
+			qt := c12QueryToken("hosta.example:3389", "issuer-1", []byte(c12QueryKey), time.Now().Add(time.Minute), "")
+			if late {
+				vclock.Advance(5 * time.Minute)
+			}
+			r := b.Do(app, "GET", "/connect?host="+url.QueryEscape(qt))
+			vclock.Reset()
+			served := r.Code == 200 || strings.Contains(r.Body.String(), "gatewayaccesstoken")
+			rep.outcome(fmt.Sprintf("signed query token late=%v served=%v", late, served))
+			if late && served {
+				rep.violate("C12/file-served-for-refused-host-selection/signed/query-token-expired-since-the-login", fmt.Sprintf("logged in while the query token had a minute left, download four minutes after its end: status %d", r.Code), map[string]any{"noreplay": true})
+			}
+			if !late && !served {
+				rep.violate("C12/file-refused-for-valid-request/signed", fmt.Sprintf("query token with a minute left: status %d", r.Code), map[string]any{"noreplay": true})
+			}
+		}
+	}
 	distinct += c12Fine(env, rep)
 	rep.add("distinct", int64(distinct))
 	rep.add("states", int64(distinct))
